@@ -46,6 +46,20 @@ def atom_value(name, env, default=None, depth=0):
             return 1.0 / ev(0)
         if op == "sqrt" and len(args) == 1:
             return ev(0) ** 0.5
+        if op.startswith("call:std::f64::<impl f64>::") and len(args) == 1:
+            import math
+            m = op.rsplit("::", 1)[1]
+            v = ev(0)
+            if m == "round":
+                return float(math.floor(abs(v) + 0.5)) * (1.0 if v >= 0 else -1.0)   # Rust rounds half away from zero
+            if m == "floor":
+                return float(math.floor(v))
+            if m == "ceil":
+                return float(math.ceil(v))
+            if m == "trunc":
+                return float(math.trunc(v))
+            if m == "abs":
+                return abs(v)
         if op == "maporr":
             # Option::map_or on a present value: the closure's value
             return ev(1)
